@@ -41,6 +41,7 @@ type c17Case struct {
 	DupK        int    `json:"dupk,omitempty"`        // with Dup: which input is mentioned twice (index into the listed order)
 	DupAt       int    `json:"dupat,omitempty"`       // with Dup: 0 = the second mention goes to the end of the list; k>0 = it is inserted at position k-1
 	Dup         string `json:"dup,omitempty"`         // the first input is listed a second time (at the end), spelled in this style
+	Glitch      int    `json:"glitch,omitempty"`      // k > 0: in-memory Create whose k-th write fails once (without effect / torn, see c17RunGlitch); then Create again over what is left
 	Tie         int    `json:"tie,omitempty"`         // PAR2: two inputs whose file ids agree in their Tie most significant bytes (Tie > 0) or -Tie least significant bytes (Tie < 0), plus a third file, in all six listing orders
 	Stale       int    `json:"stale,omitempty"`       // the set directory already holds output files: 1 = longer garbage under the same names, 2 = shorter, 3 = unrelated text; 4 = a real earlier Create over the same inputs with ONE block; 5 = a real earlier identical Create whose recovery files were then deleted / corrupted
 }
@@ -498,8 +499,96 @@ func c17RunTie(c *c17Case, r *core.Rec) {
 	r.NontrivialCase()
 }
 
+// c17RunGlitch: the files of a Create that reports success are the baseline's bytes whatever the environment did on the
+// way (a write that fails once, without effect or after half of the bytes), and a Create repeated over the leftovers of
+// an interrupted one ends with exactly the baseline's files.
+func c17RunGlitch(c *c17Case, r *core.Rec) {
+	mk := func() (*envfs.FS, []string) {
+		fs := envfs.New()
+		var in []string
+		for i, n := range []int{700, 64, 1300} {
+			p := fmt.Sprintf("/d/g%d.dat", i)
+			fs.Put(p, scen.Content("uniq", r.Seed, i, n, 64))
+			in = append(in, p)
+		}
+		return fs, in
+	}
+	create := func(fs *envfs.FS, in []string) (err error, pn *core.PanicInfo) {
+		pn = core.Catch(func() {
+			if c.Fmt == "p1" {
+				err = par1.VerifCreate(fs, "/d/s.par", in, par1.CreateOptions{NumParityFiles: 5})
+			} else {
+				err = par2.VerifCreate(fs, "/d/s.par2", in, par2.CreateOptions{SliceByteCount: 64, NumParityShards: 11, NumGoroutines: c.G})
+			}
+		})
+		return
+	}
+	base, in := mk()
+	if err, pn := create(base, in); err != nil || pn != nil {
+		r.Violatef("baseline-create-failed", "%v %v", err, pn)
+		return
+	}
+	want := base.Snapshot()
+	nw := len(base.Writes())
+	if c.Glitch > nw {
+		r.Note(fmt.Sprintf("Create makes only %d writes", nw))
+		return
+	}
+	for _, partial := range []int{-1, 0, 1, 1 << 30} {
+		fs, in := mk()
+		seenW := 0
+		fs.Hook = func(index int, kind, path string, data []byte) *envfs.Fault {
+			if kind != "write" {
+				return nil
+			}
+			seenW++
+			if seenW != c.Glitch {
+				return nil
+			}
+			pt := partial
+			if pt == 1 {
+				pt = len(data) / 2
+			}
+			return &envfs.Fault{Err: envfs.ErrInjected, Partial: pt, Kind: "glitch"}
+		}
+		err, pn := create(fs, in)
+		r.AddTransitions(1)
+		if pn != nil {
+			r.Violate("create-panic:"+pn.Frame, pn.Value)
+			return
+		}
+		what := fmt.Sprintf("%s, write %d of %d fails once (%d bytes reach the file)", c.Fmt, c.Glitch, nw, partial)
+		if err == nil {
+			if d := envfs.Diff(want, fs.Snapshot()); len(d) > 0 {
+				r.Violatef("create-output-varies-with-transient-fault", "%s: Create reported success, but %v differ from the files of an undisturbed run", what, d)
+				return
+			}
+			r.Outcome("glitch absorbed")
+		} else {
+			r.Outcome("glitch reported")
+		}
+		fs.Hook = nil
+		err, pn = create(fs, in)
+		r.AddTransitions(1)
+		if err != nil || pn != nil {
+			r.Violatef("create-failed-after-interrupted-create:"+errClass(err), "%s; Create again: %v %v", what, err, pn)
+			return
+		}
+		if d := envfs.Diff(want, fs.Snapshot()); len(d) > 0 {
+			r.Violatef("create-output-varies-after-interrupted-create", "%s; after Create again %v differ from the files of an undisturbed run", what, d)
+			return
+		}
+	}
+	r.AddStates(4)
+	r.NontrivialCase()
+}
+
 func c17Run(ci interface{}, r *core.Rec) {
 	c := ci.(*c17Case)
+	if c.Glitch > 0 {
+		c17RunGlitch(c, r)
+		return
+	}
 	if c.Tie != 0 {
 		c17RunTie(c, r)
 		return
@@ -571,6 +660,13 @@ func c17Gen(g *core.Gen) {
 	for _, k := range []int{1, 2, 3, 4, 5, 8, -1, -2, -3, -4, -5} {
 		for _, gg := range []int{1, 3} {
 			g.Emit(&c17Case{Fmt: "p2", Tie: k, G: gg})
+		}
+	}
+	// a write that fails once: PAR2 index + 4 recovery files (11 blocks), PAR1 index + 5 volumes
+	for k := 1; k <= 6; k++ {
+		g.Emit(&c17Case{Fmt: "p1", Glitch: k, G: 1})
+		if k <= 5 {
+			g.Emit(&c17Case{Fmt: "p2", Glitch: k, G: 1 + k%2})
 		}
 	}
 	cwds := []string{"set", "parent", "unrelated"}
@@ -689,7 +785,7 @@ func init() {
 	core.Register(&core.Prop{
 		ID:    "C17",
 		Level: "model_checking",
-		Rule: "(later rounds added: inputs whose file ids agree in 1..5 / 8 bytes in all listing orders; an earlier Create in the same process - other inputs with another block count, or another generation of the same inputs; decoys named like the inputs and set files in the other working directories; a non-ASCII directory above the set; the first input a symbolic link) full product on real directories: {PAR2, PAR1} x 1-4 files (PAR2 names in sub-directories) x EVERY permutation of the input list (PAR2) x goroutines 1..8 x working directory {set directory, its parent, an unrelated directory} x path spelling {relative, absolute, ./x, d//x, d/../d/x} for the index path and every input, through the library (the worker chdir()s, one scenario at a time) and through the built par command (g in {1,3}); the same for a set with slice size 96 and multi-slice files x goroutines 1..16 (so that the goroutine option really partitions the shards); repeated runs; names in which a directory name is a string prefix of a sibling file name x every permutation; block counts {5,6,7,9,12} alone and right after an unrelated Create with {5,6,9,20} blocks in the same process; look-alike inputs (equal length, identical first 16 KiB, different tails) x every permutation x g {1,3}; an input listed twice - every choice of the repeated input x every position of its second mention, and for every pair of spellings of its two mentions x working directory (whatever Create does with a repeated input, the outcome - error or bytes - must equal that of the list with both mentions spelled alike). " +
+		Rule: "(later rounds added: a Create whose k-th write fails once - without effect, empty, half, whole file written - for every k: success only with the undisturbed bytes, and a Create repeated over the leftovers gives the undisturbed bytes; inputs whose file ids agree in 1..5 / 8 bytes in all listing orders; an earlier Create in the same process - other inputs with another block count, or another generation of the same inputs; decoys named like the inputs and set files in the other working directories; a non-ASCII directory above the set; the first input a symbolic link) full product on real directories: {PAR2, PAR1} x 1-4 files (PAR2 names in sub-directories) x EVERY permutation of the input list (PAR2) x goroutines 1..8 x working directory {set directory, its parent, an unrelated directory} x path spelling {relative, absolute, ./x, d//x, d/../d/x} for the index path and every input, through the library (the worker chdir()s, one scenario at a time) and through the built par command (g in {1,3}); the same for a set with slice size 96 and multi-slice files x goroutines 1..16 (so that the goroutine option really partitions the shards); repeated runs; names in which a directory name is a string prefix of a sibling file name x every permutation; block counts {5,6,7,9,12} alone and right after an unrelated Create with {5,6,9,20} blocks in the same process; look-alike inputs (equal length, identical first 16 KiB, different tails) x every permutation x g {1,3}; an input listed twice - every choice of the repeated input x every position of its second mention, and for every pair of spellings of its two mentions x working directory (whatever Create does with a repeated input, the outcome - error or bytes - must equal that of the list with both mentions spelled alike). " +
 			"Oracle: the set of files written and every byte equal the baseline run (the built command in a fresh process: set directory, relative paths, listed order, g=1). non-trivial = any variation differs from the baseline configuration",
 		Assumptions: []string{"file contents, names relative to the index, slice size and block count are held fixed; everything else varies"},
 		NewCase:     func() interface{} { return &c17Case{} },
